@@ -28,13 +28,14 @@
 (*   to an archival peer; never for a cancelled or already answered        *)
 (*   caller; <= 1 answer; Ok carries the (only) valid response delivered;  *)
 (*   an error (before stop) is the error of the last attempt, which was    *)
-(*   directed to an archival peer, and no valid response was ignored; on   *)
-(*   stop every waiting caller is answered; at quiescence a waiting        *)
+(*   directed to an archival peer, and no valid response was ignored; once *)
+(*   stopped (and polled) every waiting caller is answered; at quiescence a*)
 (*   request implies no connected peer of the kind its next attempt needs. *)
 (* C31 clauses: head requests go to connected trusted peers only; a head   *)
 (*   answer is given only when the round is complete and obeys the         *)
 (*   best-head rule over the round's valid single-header reports; all      *)
-(*   waiting callers are answered in the same step with the same header.   *)
+(*   waiting callers are answered in the same step with the same header    *)
+(*   (an error for one and a header for another is a different answer).    *)
 (***************************************************************************)
 EXTENDS Naturals, Sequences, FiniteSets
 
@@ -48,6 +49,8 @@ MonInit(c0, t0, a0) ==
      out |-> {},       \* [id, o, k]
      hround |-> 0, newRound |-> FALSE,
      hk |-> 0,         \* head answer given in the current step (0 = none)
+     herr |-> FALSE,   \* a head caller got an error in the current step
+     polled |-> FALSE, \* the handler was polled after stop
      bad |-> ""]
 
 Waiting(m, t) == {c \in Callers : m.req[c] = t /\ c \notin m.answered /\ c \notin m.cancelled}
@@ -109,20 +112,21 @@ OnAnswer(m, e) ==
                   ELSE IF ~last.a THEN Fail(m, "final-error-from-non-archival-attempt")
                   ELSE m2
     ELSE \* head
-        IF e.t # "ok" THEN (IF m.stopped THEN m2 ELSE Fail(m, "head-error-without-stop"))
+        IF e.t # "ok" THEN (IF m.hk # 0 THEN Fail(m, "head-callers-got-different-answers")
+                            ELSE [m2 EXCEPT !.herr = TRUE])
         ELSE LET R == {r \in m.sent : r.t = "head" /\ r.n = m.hround}
                  reports == {x \in m.out : x.o = "hdr" /\ \E r \in R : r.id = x.id} IN
              IF m.stopped THEN Fail(m, "head-answer-after-stop")
              ELSE IF R = {} \/ \E r \in R : Outcomes(m, r.id) = {} THEN Fail(m, "head-answer-before-round-complete")
              ELSE IF e.k \notin Best(reports) THEN Fail(m, "head-answer-violates-best-head-rule")
-             ELSE IF m.hk # 0 /\ m.hk # e.k THEN Fail(m, "head-callers-got-different-answers")
+             ELSE IF (m.hk # 0 /\ m.hk # e.k) \/ m.herr THEN Fail(m, "head-callers-got-different-answers")
              ELSE [m2 EXCEPT !.hk = e.k]
 
 OnStepEnd(m) ==
     IF m.hk # 0 /\ Waiting(m, "head") # {} THEN Fail(m, "waiting-head-caller-not-answered")
-    ELSE IF m.stopped /\ Waiting(m, "get") \cup Waiting(m, "head") \cup Waiting(m, "bad") # {}
+    ELSE IF m.stopped /\ m.polled /\ Waiting(m, "get") \cup Waiting(m, "head") \cup Waiting(m, "bad") # {}
          THEN Fail(m, "not-answered-on-stop")
-    ELSE [m EXCEPT !.hk = 0]
+    ELSE [m EXCEPT !.hk = 0, !.herr = FALSE]
 
 OnQuiescent(m) ==
     LET starved == {c \in Waiting(m, "get") :
@@ -143,7 +147,7 @@ Mon(m, e) ==
                                     THEN [m EXCEPT !.req[e.c] = e.t] ELSE Fail(m, "harness-request-twice")
            [] e.name = "cancel"  -> [m EXCEPT !.cancelled = @ \cup {e.c}]
            [] e.name = "sched"   -> [m EXCEPT !.newRound = TRUE]
-           [] e.name = "poll"    -> m
+           [] e.name = "poll"    -> [m EXCEPT !.polled = m.stopped]
            [] e.name = "stop"    -> [m EXCEPT !.stopped = TRUE]
            [] e.name = "sent"    -> OnSent(m, e)
            [] e.name = "outcome" -> [m EXCEPT !.out = @ \cup {[id |-> e.id, o |-> e.o, k |-> e.k]}]
